@@ -63,6 +63,8 @@ pub enum Ev {
     EnableAll,
     Other,
     Reconnect,
+    /// a new connection replaces the live one (no end of the old one is ever seen)
+    Replace,
     // --- used by C13 only ---
     /// broadcast RECORD_CURRENT_TIME to 0xFFFF (0: confirm optional), 0xFFFE (1: mandatory), 0xFFFD (2: not required)
     Broadcast(u8),
@@ -790,6 +792,7 @@ fn alphabet(unsol: bool, reconnect: bool) -> Vec<Ev> {
     }
     if reconnect {
         v.push(Ev::Reconnect);
+        v.push(Ev::Replace);
     }
     v
 }
@@ -940,6 +943,10 @@ impl Driver {
             }
             Ev::Reconnect => {
                 self.sim.reconnect();
+                reconnect = true;
+            }
+            Ev::Replace => {
+                self.sim.connect(false);
                 reconnect = true;
             }
             Ev::Broadcast(mode) => {
@@ -1128,6 +1135,15 @@ fn scenarios(tier: &str) -> Vec<C03> {
 }
 
 pub fn replay(scenario: &str, path: &[usize]) -> Option<RunResult> {
+    use crate::explore::CaseSpace;
+    if scenario == super::c03x::PerType.name() {
+        return Some(super::c03x::PerType.run(path[0], true));
+    }
+    for tier in ["quick", "thorough"] {
+        if let Some(s) = super::c03x::series(tier).into_iter().find(|s| s.name() == scenario) {
+            return Some(s.run(path, true));
+        }
+    }
     scenarios("thorough").into_iter().find(|s| s.name == scenario).map(|s| s.run(path, true))
 }
 
@@ -1136,9 +1152,13 @@ pub fn check(tier: &str) -> i32 {
     for s in scenarios(tier) {
         c.explore(&s);
     }
+    c.cases(&super::c03x::PerType);
+    for s in super::c03x::series(tier) {
+        c.explore(&s);
+    }
     c.finish(
         "model_checking",
-        "every event history over the listed alphabet (updates of 4 points in 3 classes incl. two same-type points in different classes, READs by class / with count limit / by type / class 0, right and wrong solicited and unsolicited confirms, confirm timeout, DISABLE/ENABLE_UNSOLICITED, another request, reconnect) up to the listed depth, followed by a fixed drain (poll classes 1/2/3 with confirms), executed on the real OutstationTask; the ledger oracle is evaluated after every event; non-trivial = at least one event was recorded and at least one event-bearing response was transmitted; distinct = distinct observation trace",
+        "(per-type accounting) each of the 8 event types x per-type limit {1,2} x {only that type has room, all types} x 1..=5 updates x {one point, two points in different classes}: update2 reports Created / Overflow(oldest) exactly as a bounded FIFO per type says, the survivors are offered, the confirmed ones released (event_cleared ids); (event series) 40 analog / 5 large octet-string events (thorough: + 60 binary, 45 counter) answered in several fragments at tx 249: every history of depth 3 (5) over {READ, right confirm, wrong confirm, confirm timeout, another request, one more update, reconnect} followed by a drain: released ids are exactly those of the confirmed fragment, every fragment carries the oldest updates still owed, nothing is left; (ledger) every event history over the listed alphabet (updates of 4 points in 3 classes incl. two same-type points in different classes, READs by class / with count limit / by type / class 0, right and wrong solicited and unsolicited confirms, confirm timeout, DISABLE/ENABLE_UNSOLICITED, another request, reconnect) up to the listed depth, followed by a fixed drain (poll classes 1/2/3 with confirms), executed on the real OutstationTask; the ledger oracle is evaluated after every event; non-trivial = at least one event was recorded and at least one event-bearing response was transmitted; distinct = distinct observation trace",
         &[
             "the driver advances time only in whole confirm timeouts, so 'still awaiting confirmation' is decided by t_sent + timeout > now",
             "event values/times are unique per update so that a transmitted object identifies its ledger row",
